@@ -302,6 +302,9 @@ Definition decode_raw (e : elem) (n : N) (bytes : list N) : option (list N) :=
          end
   end.
 
+Definition decode_words (e : elem) (n : N) (d : pdata) : option (list N) :=
+  match d with DRaw b => decode_raw e n b | _ => decode_typed e n d end.   (* HasField("raw_data") wins *)
+
 Definition decode (p : proto) : option tensor :=
   match of_code (p_dtype p) with
   | None => None
@@ -312,7 +315,7 @@ Definition decode (p : proto) : option tensor :=
       end
   | Some e =>
       let n := prod (p_dims p) in
-      match (match p_data p with DRaw b => decode_raw e n b | d => decode_typed e n d end) with
+      match decode_words e n (p_data p) with
       | Some ws => if len ws =? n then Some (mkT e (p_dims p) (PNum ws)) else None
       | None => None
       end
